@@ -13,6 +13,7 @@ import (
 	"github.com/pion/interceptor"
 	"github.com/pion/interceptor/pkg/gcc"
 	"github.com/pion/interceptor/pkg/twcc"
+	"github.com/pion/rtcp"
 	"github.com/pion/rtp"
 
 	"verifharness/internal/cq"
@@ -238,6 +239,7 @@ type e2eCase struct {
 	CB             []int64
 	Final          int64
 	ClosedOK       int64
+	Shapes         []string `json:",omitempty"` // malformed feedback shapes fed (malformed-* patterns)
 }
 
 func runE2E(c e2eCase, fails *[]cq.ImplFailure) e2eCase {
@@ -264,8 +266,44 @@ func runE2E(c e2eCase, fails *[]cq.ImplFailure) e2eCase {
 	rec := twcc.NewRecorder(5)
 	seq := uint16(r.Intn(65536)) //nolint:gosec
 	arrival := int64(1000000)
+	feedPkts := func(pkts []rtcp.Packet, what string) bool {
+		done := make(chan error, 1)
+		go func() {
+			defer func() {
+				if x := recover(); x != nil {
+					*fails = append(*fails, cq.ImplFailure{Kind: "panic", Detail: fmt.Sprintf("WriteRTCP panicked on %s: %v", what, x), Case: c})
+					done <- nil
+				}
+			}()
+			done <- bwe.WriteRTCP(pkts, nil)
+		}()
+		select {
+		case <-done:
+			return true
+		case <-time.After(3 * time.Second):
+			*fails = append(*fails, cq.ImplFailure{Kind: "feedback-blocks", Detail: "WriteRTCP did not return within 3s on " + what, Case: c})
+
+			return false
+		}
+	}
+	shapesSeen := map[string]bool{}
+	firstSeq := seq
 	feed := func() bool {
 		pkts := rec.BuildFeedbackPacket()
+		if strings.HasPrefix(c.Pattern, "malformed") {
+			bad, shapes := malformedFeedback(r, firstSeq, seq, c.Pattern)
+			for _, sh := range shapes {
+				shapesSeen[sh] = true
+			}
+			for i, pk := range bad {
+				if !feedPkts([]rtcp.Packet{pk}, fmt.Sprintf("%T #%d of the round", pk, i)) {
+					return false
+				}
+			}
+			if !feedPkts(append(append([]rtcp.Packet{}, bad...), pkts...), "the malformed batch followed by the real feedback") {
+				return false
+			}
+		}
 		done := make(chan error, 1)
 		go func() { done <- bwe.WriteRTCP(pkts, nil) }()
 		select {
@@ -334,6 +372,11 @@ func runE2E(c e2eCase, fails *[]cq.ImplFailure) e2eCase {
 		c.CB = c.Pacer
 	}
 	c.Final = int64(bwe.GetTargetBitrate())
+	c.Shapes = nil
+	for sh := range shapesSeen {
+		c.Shapes = append(c.Shapes, sh)
+	}
+	sort.Strings(c.Shapes)
 
 	return c
 }
@@ -349,7 +392,7 @@ func (c e2eCase) toCase() cq.Case {
 	return cq.Case{
 		Coq: cq.T(cq.Z(c.Min), cq.Z(c.Max), cq.Z(c.Init), cq.LZ(c.Pacer), cq.LZ(sorted(c.CB)), cq.LZ(sorted(c.Pacer)),
 			cq.Z(c.Final), cq.Z(c.ClosedOK)),
-		JSON: c, Buckets: []string{c.Pattern}, Trivial: len(c.Pacer) == 0,
+		JSON: c, Buckets: append([]string{c.Pattern}, c.Shapes...), Trivial: len(c.Pacer) == 0,
 	}
 }
 
@@ -372,7 +415,7 @@ func main() {
 	if o.Replay != "" {
 		var probe map[string]interface{}
 		switch set := cq.LoadReplay(o.Replay, &probe); {
-		case set == "c16e2e":
+		case set == "c16e2e" || strings.HasPrefix(set, "impl-") && probe["Writers"] == nil && probe["Pattern"] != nil:
 			var c e2eCase
 			cq.LoadReplay(o.Replay, &c)
 			e2e.Cases = append(e2e.Cases, runE2E(c, &fails).toCase())
@@ -420,8 +463,11 @@ func main() {
 		c, b := genDec(r)
 		dec.Cases = append(dec.Cases, runDec(c, &fails).toCase(b...))
 	}
-	pats := []string{"normal", "all-lost", "half-lost", "identical-arrivals", "decreasing", "huge-gaps", "overuse", "duplicated"}
-	ne := o.Scale(24, 400)
+	pats := []string{
+		"normal", "all-lost", "half-lost", "identical-arrivals", "decreasing", "huge-gaps", "overuse", "duplicated",
+		"malformed-twcc", "malformed-ccfb", "malformed-mixed",
+	}
+	ne := o.Scale(33, 440)
 	var wg sync.WaitGroup
 	var mu sync.Mutex
 	res := make([]e2eCase, ne)
@@ -492,7 +538,7 @@ func main() {
 	cq.Write(o, "dec: configurations (default, min above the loss floor, narrow, max above the loss ceiling, random) x 3..32 ops "+
 		"(delay statistics with usage/state incl. invalid states, loss updates 0..100% loss with re-armed timers, received-rate changes incl. overflowing values) "+
 		"driven through the real rateController/lossController/onDelayUpdate; non-trivial = at least one rate change published; "+
-		"e2e: real SendSideBWE fed with TWCC feedback built by the real recorder under 8 arrival patterns; fn: clampInt/transition tables; "+
+		"e2e: real SendSideBWE fed with TWCC feedback built by the real recorder under 8 arrival patterns, and with internally inconsistent TWCC / RFC 8888 feedback (raw bytes through rtcp.Unmarshal and structs: fewer deltas than received symbols, runs beyond the status count, zero-length, duplicated / overlapping, wrapped ranges) which must neither panic nor disturb the oracle; fn: clampInt/transition tables; "+
 		"conc: 1..6 goroutines x 1..5 WriteRTCP calls with real TWCC feedback, 0..2 getter goroutines, 1..3 Close callers at a random point, "+
 		"then a further Close and two more WriteRTCP calls; call/return events stamped by one atomic counter and checked against what the LTS allows; "+
 		"non-trivial = feedback accepted before and refused after the Close within one scenario; "+
